@@ -118,6 +118,19 @@ pub fn pm_special_layouts() -> Vec<PmLayout> {
 	PmLayout::all().into_iter().filter(|l| (l.run_lengths || l.share_offsets) && l.leaf_size == 2 && l.leaf_levels <= 1 && !l.data_reversed).collect()
 }
 
+/// 1: interleaved (sorted by column, row, then level - the levels alternate), 2: pseudo-random (hash of the name)
+pub fn tar_member_order(mut members: Vec<(String, Vec<u8>)>, order: u8) -> Vec<(String, Vec<u8>)> {
+	match order {
+		1 => members.sort_by_key(|(n, _)| {
+			let p: Vec<u64> = n.trim_start_matches("./").trim_end_matches(".png").split('/').filter_map(|t| t.parse().ok()).collect();
+			if p.len() == 3 { (p[1] % 3, p[2] % 2, p[0], p[1], p[2]) } else { (0, 0, 0, 0, 0) }
+		}),
+		2 => members.sort_by_key(|(n, _)| crate::ctx::fnv_str(n)),
+		_ => {}
+	}
+	members
+}
+
 fn pair_cover<T: Copy>(all: &[T], n: usize) -> Vec<T> {
 	// deterministic spread over the layout list (first, last and evenly spaced)
 	if all.len() <= n {
@@ -129,7 +142,7 @@ fn pair_cover<T: Copy>(all: &[T], n: usize) -> Vec<T> {
 pub fn run(ctx: Arc<Ctx>) {
 	ctx.rule(
 		"independent encoders x layout freedoms: versatiles (coverage tight/full/margin, block order, tile order, shared ranges, padding, metadata absent) 96 layouts; PMTiles (internal compression none/gzip, run lengths, shared offsets, 0/1/2 leaf levels with leaf size 1..3, clustered / reversed data) 112 layouts; \
-		 MBTiles (table / view over map+images, extra metadata, index, insert order) 16 layouts; tar (./ prefix, directory entries, ustar/GNU, member order, metadata position) 32 layouts; directory (extra files). tile sets: BFS depth <= 1 x all layouts, PMTiles: every run (start x length <= 20 quick / 64 thorough) of equal consecutive tile ids 1..84 and every placement of two equal tiles + one other at z=2 x the layouts with run lengths / shared ranges, depth 2 x spread of layouts (quick) / all (thorough, in-memory formats), named families. \
+		 MBTiles (table / view over map+images, extra metadata, index, insert order) 16 layouts; tar (./ prefix, directory entries, ustar/GNU, member order natural / reversed / levels interleaved / hash order, metadata position) 32 layouts; directory (extra files). tile sets: BFS depth <= 1 x all layouts, PMTiles: every run (start x length <= 20 quick / 64 thorough) of equal consecutive tile ids 1..84 and every placement of two equal tiles + one other at z=2 x the layouts with run lengths / shared ranges, depth 2 x spread of layouts (quick) / all (thorough, in-memory formats), named families. \
 		 non-trivial = distinct (format, layout, tile set) using a feature the repository's writers never emit",
 	);
 	let work = ct::WorkDir::new("c16");
@@ -207,6 +220,13 @@ pub fn run(ctx: Arc<Ctx>) {
 			let mut members: Vec<(String, Vec<u8>)> = tiles.iter().map(|(k, v)| (format!("{}{}/{}/{}.png", if l.dot_prefix { "./" } else { "" }, k.0, k.1, k.2), v.clone())).collect();
 			if l.reversed {
 				members.reverse();
+			}
+			// member order is free in a tar archive: for the layouts with directory entries the members of one zoom
+			// level are scattered (archives that were appended to), for the GNU ones they are in hash order
+			if l.dir_entries {
+				members = tar_member_order(members, 1);
+			} else if l.gnu {
+				members = tar_member_order(members, 2);
 			}
 			let meta = (format!("{}tiles.json", if l.dot_prefix { "./" } else { "" }), META.to_vec());
 			if l.meta_last {
